@@ -1,7 +1,5 @@
 (* C05 - a phrase is bound to its coin. *)
 From PS Require Import Base GFDefs GFProofs ApiDefs SpecDefs SpecApi PackTheorems CoinProofs ApiLemmas RefineProofs ApiTheorems RoundTrip.
-From PS Require Import CTieBase CTieGF.
-From PS.Gen Require CFuns.
 From PS.Gen Require Import Consts Langs.
 Local Open Scope N_scope.
 
@@ -46,3 +44,9 @@ Proof.
   - split; [discriminate|reflexivity].
 Qed.
 Print Assumptions C05_indices.
+
+(* the coin identifiers of the public header are the published ones: a phrase written for Monero carries coin 0 *)
+From PS Require Import ConstsFrozen.
+Theorem C05_coin_identifiers : COIN_MONERO = 0 /\ COIN_AEON = 1 /\ COIN_WOWNERO = 2.
+Proof. exact coin_ids_frozen. Qed.
+Print Assumptions C05_coin_identifiers.
